@@ -135,6 +135,10 @@ class ParseState(metaclass=ParseStateMeta):
 
         if len(self.values) != 1:
             raise ValueError('Could not parse rule')
+        if self.tokens[0] in ('(', ')', 'and', 'or', 'not', 'string'):
+            # A lone operator, parenthesis or quoted string was never
+            # reduced to a check, so it is not a rule
+            raise ValueError('Could not parse rule')
         return self.values[0]
 
     @reducer('(', 'check', ')')
